@@ -15,6 +15,8 @@ CONSTANTS
     MaxSpans = 4
     IncomingKinds <- MC_IncAll
     WithLazy = TRUE
+    WithCancel = TRUE
+    CancelOwnIds = FALSE
     CtxForms <- MC_Forms
     Emit = TRUE
 VIEW sview
